@@ -48,10 +48,33 @@ CLIENT_SEQUENCES = ("zvt::sequences::ReadCard", "zvt::sequences::Reservation", "
                     "zvt::sequences::SetTerminalId", "zvt::feig::sequences::GetSystemInfo")
 
 
+def code_table(ctx, chk):
+    """The names the client gives to result codes are the specification's: `ErrorMessages::X as u8` / `from_u8(code)` is how
+    the client decides what an abort means (and what it prints); the discriminants of the enum are the table of chapter 10
+    (spec/error_codes.json).  A variant that slid to a neighbouring code reports another failure than the terminal did."""
+    want = ctx.spec("error_codes.json").get("zvt::constants::ErrorMessages") or {}
+    adt = ctx.crate("zvt").adts.get("zvt::constants::ErrorMessages")
+    if not chk.require(adt is not None and adt.get("kind") == "enum" and bool(want), "C20/code-table", "ErrorMessages",
+                       "message table enum (or its specification table) not found", "", nontrivial=False):
+        return
+    got = {v["name"]: v.get("discr", i) for i, v in enumerate(adt["variants"])}
+    for name, code in sorted(got.items(), key=lambda kv: kv[1]):
+        if name in want:
+            chk.require(code == want[name], "C20/code-table", "ErrorMessages::%s" % name,
+                        "the name %s stands for result code 0x%02X; the specification table gives it 0x%02X" % (name, code, want[name]),
+                        "0x%02X" % want[name])
+    chk.require(sorted(got.values()) == sorted(want.values()), "C20/code-table", "ErrorMessages (codes)",
+                "the set of named result codes differs from the specification table: only here %s, only in the table %s"
+                % ([hex(c) for c in sorted(set(got.values()) - set(want.values()))],
+                   [hex(c) for c in sorted(set(want.values()) - set(got.values()))]), "same 79 codes")
+    chk.floor("named result codes", len(got), 70)
+
+
 def run(ctx, chk):
     crate = ctx.crate("zvt_feig_terminal")
     zvt = ctx.crate("zvt")
     ZVT_ADTS.update(zvt.adts)
+    code_table(ctx, chk)
     # the client decides "the exchange is over" by the end of the reply stream: the streams of the exchanges it runs must end
     # exactly at the final packets of the specification - a stream that ends at a Status-Information never delivers the Abort
     # that follows it (the protocol-monitor clauses of C05 for these sequences)
@@ -170,6 +193,10 @@ NESTED_EXCEPTIONS = {
 }
 
 
+_RESULT_PASS = ("core::ops::try_trait::Try::branch", "core::future::future::Future::poll", "core::future::into_future::IntoFuture::into_future",
+                "core::pin::Pin::<Ptr>::new_unchecked", "core::future::get_context", "core::ops::try_trait::FromResidual::from_residual")
+
+
 def nested(chk, crate):
     """An abort surfaced by one client operation must not be lost by the operation that invoked it:
     every call from a client method to another fallible client method is `?`-propagated (or is the
@@ -205,6 +232,34 @@ def nested(chk, crate):
                 if any(x[0] == "call" and x[1] == cn and len(x) > 3 and x[3] == bb for x in walk(e)):
                     if kind in ("propagate", "err", "?"):
                         ok = True
+            # ... and on no path is a failure of the nested operation turned into success: behind the Err edge of a test of its
+            # result (a `match`, `if let Err(e)`, a guard on the error) no `Ok(..)` is returned - a tolerance for one code
+            # that wraps a whole operation also covers the aborts of the steps inside it
+            for i in sorted(f.reach):
+                t_ = f.b.blocks[i]["term"]
+                if t_["t"] != "switch":
+                    continue
+                v_ = f.tr.value(t_["d"])
+                if not (v_.kind == "rv" and v_.rv["r"] == "discr"):
+                    continue
+                ty_ = ty_str(v_.rv["of"])
+                if not ty_.startswith(("core::result::Result<", "core::ops::control_flow::ControlFlow<")):
+                    continue
+                e_ = f._carriers(f.ex.operand(t_["d"]))      # (the return slot of an inlined helper: what it carries)
+                if not any(x[0] == "call" and x[1] == cn and len(x) > 3 and x[3] == bb for x in walk(e_)):
+                    continue
+                if any(x[0] == "call" and x[1] not in _RESULT_PASS and x[1] != cn and not x[1].startswith("core::future::") and
+                       not x[1].startswith("core::pin::") and any(y[0] == "call" and y[1] == cn for y in walk(x) if y is not x)
+                       for x in walk(e_)):
+                    continue        # a value computed from the result (its payload handed to some function), not the result
+                ed = f.switch_edges(i)
+                err_t = ed.get(1, ed["else"])
+                if err_t is None or f.b.blocks[err_t]["term"]["t"] == "unreachable":
+                    continue
+                swallowed = [rbb for rbb, e2 in rets if f.classify_ret(e2) == "ok" and f.b.dominates(err_t, rbb)]
+                chk.require(not swallowed, "C20/nested-abort-propagates", inst + " (Err edge)",
+                            "a failure of %s - which includes every abort the terminal reports inside it - can end in Ok(..) of %s"
+                            % (cn[len(FEIG):], short), "no Ok behind the Err edge of the nested operation", f.sp(i))
             chk.require(ok, "C20/nested-abort-propagates", inst,
                         "the outcome of %s is not handed on with `?`: an abort reported by the terminal inside it (Err carrying the "
                         "result code) is swallowed and %s can still report success" % (cn[len(FEIG):], short),
